@@ -9,7 +9,8 @@
     ([Hyps.uniformb], [Hyps.wf_shapeb]). *)
 From Coq Require Import List Bool Arith.
 From V.C09 Require Import Analysis.
-From V.C06 Require Import Linearity Token Hyps ProofsBlock ProofsFlow ProofsSound ProofsComplete ProofsHyps ProofsFlatten.
+From V.C06 Require Import Linearity Token TokenG Hyps ProofsBlock ProofsFlow ProofsSound ProofsComplete ProofsHyps ProofsFlatten.
+From V.C06 Require Import ProofsBlockG ProofsSoundG ProofsNoCrash ProofsCompleteG.
 Import ListNotations.
 
 (** Soundness, unconditional on reachability of the exit, for the code with and without
@@ -188,3 +189,124 @@ Proof.
       destruct (G r k Hw) as [t [A B]]. exists t. split; [exact A|]. rewrite last_cons_default. exact B.
 Qed.
 Print Assumptions complete_needs_h_exit.
+
+(** * Re-binding a name at another kind (round 2)
+
+    [lin_sound_rebind]: soundness WITHOUT [uniform].  The token state of [TokenG] records per leaf
+    id the kind of the value currently held; an assignment at any kind overwrites what is held
+    (a linear token: violation), so `q: qubit ... q = 1` is part of the proved fragment -- the
+    code paths of fix-1 (515fe2c, the unused-place loop and shadowed input places) and fix-2
+    (e387929) are inside it.  [uniform] is replaced by the typing invariants of the checked CFG,
+    all decidable and evaluated on every dumped CFG: [typed] (a used leaf is bound, at the kind
+    the use says), [edges_ok] (rows of successors are bound at the same kind when the
+    predecessor ends), [exit_row_ok]. *)
+Theorem lin_sound_rebind : forall fx c sched, wf_shape c -> typed c -> edges_ok c -> exit_row_ok c ->
+  check_cfg fx c sched = Accept ->
+  (forall rest k, is_walk c (c_entry c) rest ->
+     exists t, grun_path c g_empty (c_entry c) rest k = GFine t) /\
+  (forall rest k t, is_walk c (c_entry c) rest -> last rest (c_entry c) = c_exit c ->
+     grun_path c g_empty (c_entry c) rest k = GFine t -> gfinal_ok c t).
+Proof.
+  intros fx c sched HW HT HE HX HA.
+  destruct (accept_inv fx c sched HA) as [ss0 [ss [H1 [H2 [H3 [H4 [H5 H6]]]]]]].
+  split.
+  - intros rest k Hw.
+    eapply gpath_safe with (ss0 := ss0) (ss := ss) (fx := fx); eauto. apply GJb_entry.
+  - intros rest k t Hw Hl Hr.
+    eapply gpath_final with (ss0 := ss0) (ss := ss) (fx := fx) (b := c_entry c); eauto. apply GJb_entry.
+Qed.
+Print Assumptions lin_sound_rebind.
+
+(** A well-typed checked CFG never crashes the checker (goal: "Accept or crashed" -> "Accept"). *)
+Theorem checker_never_crashes : forall fx c sched, wf_shape c -> typed c -> edges_ok c -> exit_row_ok c ->
+  wf_idx c -> c_exit_reachable c = true -> ~ crashed (check_cfg fx c sched).
+Proof. exact no_crash. Qed.
+Print Assumptions checker_never_crashes.
+
+Theorem lin_complete_strict : forall c sched K, uniform K c -> wf_shape c -> io_ok c -> events_wf c ->
+  typed c -> edges_ok c -> exit_row_ok c -> wf_idx c ->
+  c_exit_reachable c = true -> all_reach c -> ~ violated K c ->
+  check_cfg true c sched = Accept.
+Proof.
+  intros c sched K HK HW HIO HEV HT HE HX HI HER HR HV.
+  destruct (lin_complete_lemma c sched K HK HW HIO HEV HER HR HV) as [H | H]; [exact H|].
+  exfalso. exact (no_crash true c sched HW HT HE HX HI HER H).
+Qed.
+Print Assumptions lin_complete_strict.
+
+Theorem typing_decidable : forall c, typedb c = true -> edges_okb c = true -> exit_row_okb c = true ->
+  wf_idxb c = true -> typed c /\ edges_ok c /\ exit_row_ok c /\ wf_idx c.
+Proof.
+  intros c A B C D. split; [apply typedb_sound; exact A|]. split; [apply edges_okb_sound; exact B|].
+  split; [apply exit_row_okb_sound; exact C | apply wf_idxb_sound; exact D].
+Qed.
+Print Assumptions typing_decidable.
+
+(* the two programs of the fixes are non-uniform, satisfy the hypotheses of [lin_sound_rebind],
+   and are accepted; the variant that re-binds a qubit that was never consumed is rejected and
+   indeed overwrites a linear token *)
+Example rebind_programs_covered :
+  (uniformb f1_cfg = false /\ wf_shapeb f1_cfg = true /\ typedb f1_cfg = true /\ edges_okb f1_cfg = true /\
+   exit_row_okb f1_cfg = true /\ check_cfg true f1_cfg [] = Accept) /\
+  (uniformb g1_cfg = false /\ wf_shapeb g1_cfg = true /\ typedb g1_cfg = true /\ edges_okb g1_cfg = true /\
+   exit_row_okb g1_cfg = true /\ check_cfg true g1_cfg [] = Accept) /\
+  (check_cfg true f1bad_cfg [] = RejUnused 0 [0] /\
+   grun_path f1bad_cfg g_empty 0 [3; 4; 1] 0 = GBad (VOverwrite 0)).
+Proof. vm_compute. repeat split. Qed.
+
+(** Completeness WITHOUT [uniform], for the code with fix-1: under H_exit, if no path violates the
+    [TokenG] discipline (no [GBad] prefix, every complete path ends in [gfinal_ok]) then the
+    checker accepts -- also when names are re-bound at other kinds.  This is the statement the
+    two repaired defects violated. *)
+Theorem lin_complete_rebind : forall c sched, wf_shape c -> typed c -> edges_ok c -> exit_row_ok c ->
+  wf_idx c -> io_ok c -> events_wf c -> c_exit_reachable c = true -> all_reach c -> ~ gviolated c ->
+  check_cfg true c sched = Accept.
+Proof. exact lin_complete_rebind_lemma. Qed.
+Print Assumptions lin_complete_rebind.
+
+Theorem lin_complete_rebind_ast : forall bs entry exit_ reach fin sched,
+  let c := mkLC (map flatten_block bs) entry exit_ reach fin in
+  wf_shape c -> typed c -> edges_ok c -> exit_row_ok c -> wf_idx c -> io_ok c -> reach = true ->
+  all_reach c -> ~ gviolated c -> check_ast true bs entry exit_ reach fin sched = Accept.
+Proof.
+  intros bs entry exit_ reach fin sched c HW HT HE HX HI HIO HR HA HV.
+  apply (lin_complete_rebind_lemma c sched HW HT HE HX HI HIO (flatten_events_wf bs entry exit_ reach fin) HR HA HV).
+Qed.
+Print Assumptions lin_complete_rebind_ast.
+
+(** soundness and completeness together: on well-typed builder-shaped CFGs satisfying H_exit the
+    repaired checker accepts exactly the CFGs no path of which violates the discipline *)
+Theorem lin_exact_rebind : forall c sched, wf_shape c -> typed c -> edges_ok c -> exit_row_ok c ->
+  wf_idx c -> io_ok c -> events_wf c -> c_exit_reachable c = true -> all_reach c ->
+  (check_cfg true c sched = Accept <-> ~ gviolated c).
+Proof.
+  intros c sched HW HT HE HX HI HIO HEV HER HR. split.
+  - intros HA. destruct (lin_sound_rebind true c sched HW HT HE HX HA) as [S1 S2].
+    intros HG. unfold gviolated, gbad_walk, gbad_final in HG.
+    destruct HG as [[rest [k [v [Hw Hb]]]] | [rest [k [t [Hw [Hl [Hf Hn]]]]]]].
+    + destruct (S1 rest k Hw) as [t Ht]. congruence.
+    + apply Hn. eapply S2; eauto.
+  - apply lin_complete_rebind_lemma; auto.
+Qed.
+Print Assumptions lin_exact_rebind.
+
+(** The released checker (without fix-1) is incomplete on exactly such a program: f1
+    (`if c: pass; measure(q); q = 1; return 2`) is well typed, no path violates the discipline
+    (by [lin_sound_rebind] applied to the repaired checker), and [fx = false] rejects it. *)
+Theorem released_incomplete_refuted :
+  typed f1_cfg /\ edges_ok f1_cfg /\ exit_row_ok f1_cfg /\ wf_shape f1_cfg /\
+  ~ gviolated f1_cfg /\ check_cfg false f1_cfg [] = RejUnused 4 [0].
+Proof.
+  assert (HT : typed f1_cfg) by (apply typedb_sound; vm_compute; reflexivity).
+  assert (HE : edges_ok f1_cfg) by (apply edges_okb_sound; vm_compute; reflexivity).
+  assert (HX : exit_row_ok f1_cfg) by (apply exit_row_okb_sound; vm_compute; reflexivity).
+  assert (HW : wf_shape f1_cfg) by (apply wf_shapeb_sound; vm_compute; reflexivity).
+  split; [exact HT|]. split; [exact HE|]. split; [exact HX|]. split; [exact HW|]. split; [|vm_compute; reflexivity].
+  assert (HA : check_cfg true f1_cfg [] = Accept) by (vm_compute; reflexivity).
+  destruct (lin_sound_rebind true f1_cfg [] HW HT HE HX HA) as [S1 S2].
+  intros HG. unfold gviolated, gbad_walk, gbad_final in HG.
+  destruct HG as [[rest [k [v [Hw Hb]]]] | [rest [k [t [Hw [Hl [Hf Hn]]]]]]].
+  - destruct (S1 rest k Hw) as [t Ht]. congruence.
+  - apply Hn. eapply S2; eauto.
+Qed.
+Print Assumptions released_incomplete_refuted.
